@@ -47,6 +47,20 @@ theorem C09_entry (env : Env) (s s' : State) (c : Call) (r : Response)
     rw [hf] at hfm
     exact hfm.2
 
+/-- C09 entry, as the decidable predicate the driver evaluates on the implementation -/
+theorem C09_entry_ok (env : Env) (s s' : State) (c : Call) (r : Response)
+    (id base : String) (fee : Option Coin) (price quote : String) (qs size : Nat)
+    (hm : c.msg = .createBid id base fee price quote qs size)
+    (hexact : ∀ p rate, Dec.parse price = some p → bidRate s.info = some rate →
+        exactMul p size = true ∧ exactMul rate qs = true)
+    (h : execute env s c = .ok (s', r)) : C09_entryOK s fee price quote qs size = true := by
+  obtain ⟨p, rate, hp, hr, h1, h2, h3⟩ := C09_entry env s s' c r id base fee price quote qs size hm hexact h
+  unfold C09_entryOK
+  simp only [hp, hr, h1, h2, beq_self_eq_true, Bool.true_and]
+  cases fee with
+  | none => rfl
+  | some f => simp [h3 f rfl]
+
 /-- C09 ask fee: the ask fee of an accepted match is the configured ask rate times the executed
     price × size, rounded half away from zero; C02 shows it is deducted from the seller's
     proceeds and paid to the ask-fee account -/
